@@ -67,15 +67,15 @@ LEVEL_TEXT = ("Proved in Lean 4 about the model that the driver runs, for ALL by
               "parser over every req/srv/tcp stream of every run. The model is tied to the code by the correspondence check on all "
               "observable fields, socket state, bytes written back, bytes left unread (req: after one read; srv: where the reader itself closed the connection - on the other exits "
               "closeBehind drops them, there the bytes unread at each dispatch, at=, are compared and judged against the framed end by the framing parser; tcp: not observed), and (fmap) status/length of the static file "
-              "answer for every short token path on a fixture tree. RANGE: (range_parser_safe, range_of_any_stream, range_args_in_bounds) for every "
+              "answer for every short token path on a fixture tree. RANGE: (range_parser_safe, range_of_any_stream, range_args_in_bounds, range_canonical_forms) for every "
               "Range value (any bytes) and file size n the parser of HttpServer::serve ends, reads parts[0]/parts[1] of the split only where they exist "
-              "(checked array access partAt?), and answers whole file, unsatisfiable, or begin <= end < n - through the same rangeOf as C10's model; tied by "
+              "(checked array access partAt?), and answers whole file, unsatisfiable, or begin <= end < n - through the same rangeOf as C10's model, and on `bytes=first-last` / `bytes=first-` with up to 9 digits the answer is first..min(last, n-1) or unsatisfiable (canonicalAnswer; last = 0 reads as `to the end`, C10's known range-end-zero); tied by "
               "the op `rng` (status, Content-Range, Content-Length, body length of the real answer on files of 36, 4 and 0 bytes). UPGRADE: "
               "(upgrade_handoff_exact, upgrade_handoff_any_fragmentation, upgrade_handoff_consumes_prefix) a well-formed request with Upgrade: websocket followed by ANY bytes (the first frame, whole, "
               "in part, or none) is handed to the WebSocket server with exactly those bytes unread - the HTTP reader consumed the request and nothing of the frame; "
               "tied by the op `upg` (head + frame bytes written in one segment, a WebSocketServer subclass linked to the HttpServer reads what is left on the "
               "descriptor at the hand-off; `upgf`: the same stream delivered in two segments cut inside the head or the frame, the second arriving while the server "
-              "reads - the answer must not depend on the cut; in the model a fragmentation is a list of segments whose concatenation the blocking reads see). ONE DECODING: (path_decoded_once, decode_inverts_one_escape) a path text sent with its `%` escaped as `%25` arrives as "
+              "reads - the answer must not depend on the cut; in the model a fragmentation is a list of segments whose concatenation the blocking reads see). ONE DECODING: (path_decoded_once, path_decoded_once_any, path_is_one_pass_decoding, decode_inverts_one_escape) a path text sent with its `%` escaped as `%25` arrives as "
               "that text (`%252e%252e` is `%2e%2e`, never `..`), for every path; tied by tg/req/dec as before.")
 
 LEVEL_NOTE = ("Trusted: Lean kernel, harness + watchdog, the python framing parser, libc/OS as listed in assumptions. The query theorems "
